@@ -2,7 +2,7 @@
 (the table CompileCommand.is_supported is driven by) -> Gen/C13_tables.v.
 
 Parses with `ast` only; fail-closed: the function must have exactly the shape
-    extension = Path(filename).suffix
+    extension = os.path.splitext(filename)[1]
     supported_extensions = [<string literals>]
     return extension in supported_extensions
 (after an optional isinstance guard that raises), and CompileCommand.is_supported
@@ -49,7 +49,7 @@ def extensions(repo: Path):
     if len(body) != 3:
         _fail("is_source_file has %d statements after the guard" % len(body))
     a, b, c = body
-    if ast.unparse(a) != "extension = Path(filename).suffix":
+    if ast.unparse(a) != "extension = os.path.splitext(filename)[1]":
         _fail("extension assignment: " + ast.unparse(a))
     if not (isinstance(b, ast.Assign) and len(b.targets) == 1 and isinstance(b.targets[0], ast.Name)
             and b.targets[0].id == "supported_extensions" and isinstance(b.value, ast.List)):
